@@ -37,7 +37,8 @@ def _(self: Ref['mqtt.client.pubsubs.MQTTProtocol'], request: Ref['mqtt.pdu.PUBL
     ensures(inv(self) and is_list_bytes(self.transport.tr_out))
     ensures(implies(old(alarms_set(self)), alarms_set(self)))
     ensures(is_bool(result.d_fired) and not (result.d_val == exc('MQTTStateError')))
-    ensures(unchanged(self._pingReq.alarm))
+    ensures(unchanged(self._pingReq.alarm) and conn_untouched(self))
+    ensures(forall(lambda k: contains(S(self), k) == old(contains(S(self), k))) and forall(lambda k: contains(U(self), k) == old(contains(U(self), k))))
     # rejected up front: a failed Deferred, nothing written, nothing queued
     ensures(implies(publish_rejected(request), result.d_fired and not result.d_ok and is_exc(result.d_val)
                     and out(self) == old(out(self)) and dq_tail(Q(self)) == old(dq_tail(Q(self)))
